@@ -2,7 +2,7 @@
    [vm_compute] evaluation inside coqc run exactly the same function.
    A case is a list of numbers; the first is the case kind. *)
 From Coq Require Import NArith List Bool.
-From PDB Require Import Gen.Consts Model.IndexPage Model.Pipeline Model.Meta Model.Migrate Model.ValueTable Model.MultiTree Model.BTreeIter Model.BTreeCheck Model.Wal Model.WalCodec Model.StorageCheck Model.Lock Model.Readers Model.TableAlloc Model.IndexSlots.
+From PDB Require Import Gen.Consts Model.IndexPage Model.Pipeline Model.Meta Model.Migrate Model.ValueTable Model.MultiTree Model.BTreeIter Model.BTreeCheck Model.Wal Model.WalCodec Model.StorageCheck Model.Lock Model.Readers Model.TableAlloc Model.IndexSlots Model.BTreeMut.
 Import ListNotations.
 Open Scope N_scope.
 
@@ -554,6 +554,38 @@ Definition run_c09_slots (l : list N) : list N :=
   | _ => err_marker
   end.
 
+(* ---- kind 104: btree mutation. 104 nops (1 k | 2 k)* ; 1 k: key k is set, 2 k: key k is removed (it is there).
+   Output after every op: depth, then the tree: node := nseps inner first? (key child?)* ---- *)
+Fixpoint enc_btn (fuel : nat) (depth : nat) (t : btn) : list N :=
+  match fuel with
+  | O => []
+  | S f =>
+      match t with
+      | BT ks cs =>
+          match depth with
+          | O => N.of_nat (length ks) :: 0 :: ks
+          | S d =>
+              N.of_nat (length ks) :: 1 :: enc_btn f d (child_at cs 0) ++
+              flat_map (fun kc => fst kc :: enc_btn f d (snd kc)) (combine ks (tl cs))
+          end
+      end
+  end.
+Fixpoint btree_trace (fuel : nat) (l : list N) (st : nat * btn) : list N :=
+  match fuel with
+  | O => []
+  | S f =>
+      match l with
+      | 1 :: k :: r => let st' := bstep st (BSet k) in N.of_nat (fst st') :: enc_btn (S (S (fst st'))) (fst st') (snd st') ++ btree_trace f r st'
+      | 2 :: k :: r => let st' := bstep st (BDel k) in N.of_nat (fst st') :: enc_btn (S (S (fst st'))) (fst st') (snd st') ++ btree_trace f r st'
+      | _ => []
+      end
+  end.
+Definition run_c04_mut (l : list N) : list N :=
+  match l with
+  | n :: rest => btree_trace (N.to_nat n) rest binit
+  | _ => err_marker
+  end.
+
 (* ---- kind 18: lock protocol. 18 n op* ; op: 1 h open | 2 h drop | 3 h kill | 4 h c write.
    Output: one result per op, 99, the live handles, 98, the content ---- *)
 Fixpoint parse_lops (fuel : nat) (l : list N) : list lop :=
@@ -610,6 +642,7 @@ Definition dispatch (l : list N) : list N :=
   | 14 :: rest => run_c14 rest
   | 114 :: rest => run_c14_alloc rest
   | 109 :: rest => run_c09_slots rest
+  | 104 :: rest => run_c04_mut rest
   | 5 :: rest => run_c05 rest
   | 18 :: rest => run_c18 rest
   | 12 :: rest => run_c12 rest
